@@ -999,6 +999,9 @@ func run(seed int64, n int, dir string, _ []string) {
 			if os.Getenv("VERIF_TIER") == "thorough" {
 				jobs = append(jobs, thoroughKnownFindingJobs()...)
 			}
+			// function names through the generic production, table objects of every shape as the target of a statement
+			jobs = append(jobs, quotedNameJobs()...)
+			jobs = append(jobs, dmlTargetJobs()...)
 			// small deterministic grids, unsliced (gen_roles.go)
 			jobs = append(jobs, fieldsGridJobs()...)
 			jobs = append(jobs, preparedJobs()...)
